@@ -4,6 +4,7 @@ import TeleportModel.Model.Host
 import TeleportModel.Generated.AbiTuples
 import TeleportModel.Generated.HostKeys
 import TeleportModel.Generated.Validate
+import TeleportModel.Generated.PacketScans
 import TeleportModel.Driver.Loop
 /- Line protocol of C19 (see harness/c19_test.go and docs/C19.md). The model runs on the GENERATED tables. -/
 namespace TM.Driver.C19
@@ -88,6 +89,15 @@ def visit {α} (items : List α) (f : α → Outcome (Option String)) : String :
       | .err _ => okList acc.reverse        -- `return` inside the loop: keeps what was collected
       | .panic _ => "panic"
   go items []
+
+/-- the by-path scan `fn` of the regenerated scan table -/
+def pathScan? (fn : String) : Option PathScan := PacketScans.pathScans.find? (fun s => s.fn == fn)
+
+def showScan (o : Outcome (List (Bytes × Bytes × UInt64 × SV))) : String :=
+  match o with
+  | .ok l => okList (l.map (fun e => hex e.1 ++ ":" ++ hex e.2.1 ++ ":" ++ toString e.2.2.1.toNat ++ ":" ++ showSV e.2.2.2))
+  | .err _ => "err"
+  | .panic _ => "panic"
 
 def set (st : St) (k : Bytes) (v : SV) : St := { st with store := storeSet k v st.store }
 
@@ -205,6 +215,35 @@ def step (st : St) (line : String) : St × String :=
         | .ok (a, b, n) => .ok (some (hex a ++ ":" ++ hex b ++ ":" ++ toString n.toNat ++ ":" ++ showSV kv.2))
         | .err e => .err e
         | .panic s => .panic s))
+  | ["bypath-get", a, b] =>
+    match pathScan? "IteratePacketCommitmentByPath", unhex a, unhex b with
+    | some s, some a, some b =>
+      match render s.prefixT [.s a, .s b] with
+      | some pre => (st, showScan (scanByPath (scanParserOf s.parser pre) pre a b st.store))
+      | none => (st, "bad-op")
+    | _, _, _ => (st, "bad-op")
+  | ["bypath-iter", a, b] =>
+    match pathScan? "IteratePacketCommitmentByPath", unhex a, unhex b with
+    | some s, some a, some b =>
+      match render s.prefixT [.s a, .s b] with
+      | some pre =>
+        (st, visit (prefixScan pre st.store) (fun kv =>
+          match parseHashesKey kv.1 with
+          | .ok (a, b, n) => .ok (some (hex a ++ ":" ++ hex b ++ ":" ++ toString n.toNat ++ ":" ++ showSV kv.2))
+          | .err e => .err e
+          | .panic s => .panic s))
+      | none => (st, "bad-op")
+    | _, _, _ => (st, "bad-op")
+  | ["grpc", fam, a, b] =>
+    match pathScan? (if fam = "ack" then "PacketAcknowledgements" else "PacketCommitments"), unhex a, unhex b with
+    | some s, some a, some b =>
+      if fam ≠ "ack" && fam ≠ "commit" then (st, "bad-op")
+      -- validategRPCRequest
+      else if !(validName Validate.srcChainValidator a && validName Validate.dstChainValidator b) then (st, "err")
+      else match render s.prefixT [.s a, .s b] with
+        | some pre => (st, showScan (scanByPath (scanParserOf s.parser pre) pre a b st.store))
+        | none => (st, "bad-op")
+    | _, _, _ => (st, "bad-op")
   | ["iseq"] =>
     (st, visit (prefixIter C.nextSeqSendPrefix st.store) (fun kv =>
       match parsePath kv.1 with
